@@ -184,6 +184,9 @@ func runOracle(mode string, c *Case) CaseResult {
 func oracleRef(c *Case) CaseResult {
 	runtime.GOMAXPROCS(c.Procs)
 	st := NewStore(c.Data)
+	// every third case on a storage that returns only the samples each select asked for (as a TSDB
+	// does): both engines must then still agree
+	st.ClipToHints = c.ID%3 == 1
 	cfg := c.Cfg()
 	impl, path := runQuery(newImpl(cfg), st, cfg, c.Query, c.Window)
 	ref, _ := runQuery(newRef(cfg), st, cfg, c.Query, c.Window)
